@@ -4,8 +4,10 @@
 //! command histories (`cops::gen_history`), by a field-coverage builder and by a "large value"
 //! builder; each state S goes through the four real encode/replay paths:
 //!   (a) `produce_initial_state()` -> dispatch on a fresh state (worker bootstrap),
-//!   (b) `write_requests_to_file` -> the `load_state` read loop (fixed 200 000-byte `Buffer` +
-//!       `parse_several_requests`) -> dispatch,
+//!   (b) `write_requests_to_file` -> whole-file `parse_several_requests` -> dispatch, and for a
+//!       few hundred states per run the REAL `load_state` of an in-process `CommandHub` (hub lab
+//!       of C09, scripted workers acknowledging everything), read back through the real
+//!       `SaveState`,
 //!   (c) `write_initial_state_to_file` -> `read_initial_state_from_file` -> dispatch,
 //!   (d) `serde_json` of `sozu::command::upgrade::UpgradeData { state: S, .. }` and back.
 //! Oracle: no replayed command is rejected and the result equals S on every configuration map
@@ -28,7 +30,6 @@ use std::{
 use serde_json::{Value, json};
 use sozu::command::upgrade::UpgradeData;
 use sozu_command_lib::{
-    buffer::growable::Buffer,
     config::Config,
     parser::parse_several_requests,
     proto::command::{
@@ -133,49 +134,6 @@ fn replay<'a>(requests: impl Iterator<Item = &'a Request>) -> Replayed {
         }
     }
     Replayed { state, rejected }
-}
-
-/// what `bin/src/command/requests.rs::load_state` does with its buffer, minus the hub
-fn load_state_read_loop(file: &mut File) -> Result<Vec<WorkerRequest>, String> {
-    let mut out = Vec::new();
-    let mut buffer = Buffer::with_capacity(200000);
-    loop {
-        // (mirrors the loop of load_state as repaired by the fix: commit "let load_state reload a
-        // saved request larger than its 200000-byte buffer")
-        if buffer.available_space() == 0 {
-            buffer.shift();
-            if buffer.available_space() == 0 {
-                buffer.grow(buffer.capacity() * 2);
-            }
-        }
-        let previous = buffer.available_data();
-        match file.read(buffer.space()) {
-            Ok(n) => {
-                buffer.fill(n);
-            }
-            Err(e) => return Err(format!("Error reading the saved state file: {e}")),
-        }
-        if buffer.available_data() == 0 {
-            return Ok(out);
-        }
-        let mut offset = 0usize;
-        match parse_several_requests::<WorkerRequest>(buffer.data()) {
-            Ok((rest, requests)) => {
-                if !rest.is_empty() && previous == buffer.available_data() {
-                    return Err("Error consuming load state message".to_owned());
-                }
-                offset = buffer.data().len() - rest.len();
-                out.extend(requests);
-            }
-            Err(e) if e.is_incomplete() => {
-                if buffer.available_data() == buffer.capacity() {
-                    return Err("message too big, stopping parsing".to_owned());
-                }
-            }
-            Err(e) => return Err(format!("saved state parse error: {e:?}")),
-        }
-        buffer.consume(offset);
-    }
 }
 
 fn first_altered(a: &[WorkerRequest], b: &[WorkerRequest]) -> Option<(usize, String)> {
@@ -289,29 +247,12 @@ fn check_paths(ctx: &Ctx, rep: &mut Report, ci: &CaseInfo, s: &ConfigState) {
                         witness(ctx, ci, "state_file", json!({"written": count, "parsed": whole.as_ref().map(|w| w.len()), "file_bytes": all.len()})),
                     );
                 }
-                let _ = file.seek(SeekFrom::Start(0));
-                match load_state_read_loop(&mut file) {
-                    Err(e) => {
-                        rep.obs("path:state_file:failed", 1);
-                        if longest + 1 > 200000 {
-                            rep.obs("state_file_record_larger_than_load_buffer", 1);
-                            rep.violation(
-                                "roundtrip/state_file/load_state_buffer_exceeded",
-                                &format!("the load_state read loop (fixed 200000-byte buffer) cannot reload a state file whose longest record is {longest} bytes: {e}"),
-                                witness(ctx, ci, "state_file", json!({"error": e, "longest_record": longest, "file_bytes": all.len(), "whole_file_parse_ok": whole.is_some()})),
-                            );
-                        } else {
-                            rep.violation(
-                                "roundtrip/state_file/load_loop_failed",
-                                &format!("the load_state read loop failed on a file written by write_requests_to_file: {e}"),
-                                witness(ctx, ci, "state_file", json!({"error": e, "longest_record": longest, "file_bytes": all.len()})),
-                            );
-                        }
-                    }
-                    Ok(reqs) => {
-                        if longest + 1 > 200000 {
-                            rep.obs("state_file_record_larger_than_load_buffer", 1);
-                        }
+                if longest + 1 > 200000 {
+                    rep.obs("state_file_record_larger_than_200000_bytes", 1);
+                }
+                match whole {
+                    None => rep.obs("path:state_file:failed", 1),
+                    Some(reqs) => {
                         let altered = first_altered(&init.requests, &reqs);
                         if let Some((i, v)) = &altered {
                             rep.violation(
@@ -798,6 +739,9 @@ fn build_case(ctx: &Ctx, case: u64, rng: &mut Rng) -> (&'static str, ConfigState
 }
 
 fn run_case(ctx: &Ctx, case: u64, rep: &mut Report) {
+    if case >= HUB_BASE {
+        return run_hub_case(ctx, case, rep);
+    }
     let mut rng = Rng::for_case(ctx.seed, 5, case);
     let (kind, st, ops, mid) = build_case(ctx, case, &mut rng);
     count_ops(rep, &ops);
@@ -836,12 +780,318 @@ fn run_case(ctx: &Ctx, case: u64, rep: &mut Report) {
     }
 }
 
+// ---------------------------------------------------------------- hub-level state file path
+
+/// case numbers from here on are hub cases: the state file goes through the REAL
+/// `bin/src/command/requests.rs::load_state` / `save_state` of an in-process `CommandHub`
+pub const HUB_BASE: u64 = 1 << 41;
+
+const HUB_SIZES: &[usize] = &[60_000, 99_000, 101_000, 120_000, 150_000, 199_000, 200_500, 260_000, 400_000];
+
+/// a state whose saved file holds one or two large records at a chosen position among many
+/// small ones (the reader refills a 200 000-byte buffer: what matters is where a large record
+/// starts relative to a refill), or an ordinary random history
+fn build_hub_state(ctx: &Ctx, rng: &mut Rng) -> (ConfigState, Vec<Op>, Value) {
+    let fx = fixtures();
+    let mut st = ConfigState::new();
+    let mut ops = Vec::new();
+    if rng.chance(1, 6) {
+        let n = rng.urange(5, ctx.tier.pick(60, 120));
+        let mut g = G::new(rng, 2);
+        extend_history(&mut g, &mut st, &mut ops, n, fx);
+        return (st, ops, json!({"layout": "random_history"}));
+    }
+    let n_small = *rng.pick(&[0usize, 1, 3, 10, 40, 80, 120, 160, 200, 300, 500]) + rng.urange(0, 9);
+    let n_after = rng.urange(0, 60);
+    let n_big = if rng.chance(1, 4) { 2 } else { 1 };
+    let mut g = G::new(rng, 1);
+    g.oddities = false;
+    // small records that precede everything but a big *first* http listener: http listeners
+    // (they are written first, sorted by address); sizes vary with the optional fields
+    for i in 0..n_small {
+        let a = sa(&format!("10.{}.{}.1:{}", 1 + i / 250, i % 250, 8000 + (i % 7)));
+        g.density = (i % 4) as u64;
+        let l = g.http_listener(a);
+        apply(&mut st, (req(RequestType::AddHttpListener(l)), "AddHttpListener/small".to_owned()), &mut ops);
+    }
+    g.density = 1;
+    let mut bigs = Vec::new();
+    for _ in 0..n_big {
+        let size = *g.rng.pick(HUB_SIZES) + g.rng.urange(0, 3000);
+        let position = g.rng.below(5);
+        let name = match position {
+            0 => {
+                // very first record of the file
+                let mut l = g.http_listener(sa("0.0.0.1:1"));
+                l.answers.insert("503".to_owned(), big_string(size));
+                apply(&mut st, (req(RequestType::AddHttpListener(l)), "AddHttpListener/large_answer_first_record".to_owned()), &mut ops);
+                "first:http_listener"
+            }
+            1 => {
+                let mut l = g.https_listener(sa("127.0.0.1:443"));
+                l.answers.insert("503".to_owned(), big_string(size));
+                apply(&mut st, (req(RequestType::AddHttpsListener(l)), "AddHttpsListener/large_answer".to_owned()), &mut ops);
+                "early:https_listener"
+            }
+            2 => {
+                let mut c = g.cluster("m-big".to_owned(), 0);
+                c.answer_503 = Some(big_string(size));
+                apply(&mut st, (req(RequestType::AddCluster(c)), "AddCluster/large_answer".to_owned()), &mut ops);
+                "middle:cluster"
+            }
+            3 => {
+                let mut c = g.cert(&fx.certs, 1);
+                let link = CHAIN_PEM.to_owned();
+                c.certificate_chain = std::iter::repeat(link.clone()).take(size / link.len().max(1) + 1).collect();
+                apply(&mut st, (req(RequestType::AddCertificate(AddCertificate { address: sa("[::1]:443"), certificate: c, expired_at: None })), "AddCertificate/large_chain".to_owned()), &mut ops);
+                "middle:certificate"
+            }
+            _ => {
+                let mut b = g.backend();
+                b.cluster_id = "zzzz-last".to_owned();
+                b.backend_id = "zz".to_owned();
+                b.sticky_id = Some(big_string(size));
+                apply(&mut st, (req(RequestType::AddBackend(b)), "AddBackend/large_sticky_id_last_record".to_owned()), &mut ops);
+                "last:backend"
+            }
+        };
+        bigs.push(json!({"position": name, "size": size}));
+    }
+    // small records around and after the big ones: clusters a*/z*, frontends, backends
+    for i in 0..n_after {
+        let id = if i % 2 == 0 { format!("a{i:04}") } else { format!("z{i:04}") };
+        let c = g.cluster(id.clone(), (i % 3 == 0) as u8);
+        apply(&mut st, (req(RequestType::AddCluster(c)), "AddCluster/small".to_owned()), &mut ops);
+        let mut b = g.backend();
+        b.cluster_id = id.clone();
+        apply(&mut st, (req(RequestType::AddBackend(b)), "AddBackend/small".to_owned()), &mut ops);
+        let a = g.front_addr();
+        let mut f = g.http_front(a);
+        f.cluster_id = Some(id);
+        f.hostname = format!("h{i}.example");
+        apply(&mut st, (req(RequestType::AddHttpFrontend(f)), "AddHttpFrontend/small".to_owned()), &mut ops);
+    }
+    let extra = g.rng.urange(0, 10);
+    g.density = 2;
+    extend_history(&mut g, &mut st, &mut ops, extra, fx);
+    (st, ops, json!({"layout": "big_records_among_small", "small_records_before": n_small, "small_groups_after": n_after, "big": bigs}))
+}
+
+/// offsets and lengths of the records of a state file, largest first (for the witness)
+fn record_layout(all: &[u8]) -> (usize, Vec<Value>) {
+    let mut off = 0usize;
+    let mut recs = Vec::new();
+    for (i, c) in all.split(|b| *b == 0).enumerate() {
+        if !c.is_empty() {
+            recs.push((c.len() + 1, off, i));
+        }
+        off += c.len() + 1;
+    }
+    let n = recs.len();
+    recs.sort_by(|a, b| b.cmp(a));
+    (n, recs.iter().take(3).map(|(len, off, i)| json!({"record": i, "offset": off, "length": len, "offset_mod_200000": off % 200000})).collect())
+}
+
+fn run_hub_case(ctx: &Ctx, case: u64, rep: &mut Report) {
+    use std::sync::{Arc, atomic::{AtomicBool, AtomicU64, Ordering}};
+    use std::time::{Duration, Instant};
+    use sozu_command_lib::proto::command::{ResponseStatus, WorkerResponse};
+    use crate::c09_hub::{HubLab, Recv};
+
+    let mut rng = Rng::for_case(ctx.seed, 55, case);
+    let (s, ops, layout) = build_hub_state(ctx, &mut rng);
+    let n_workers = rng.urange(1, 2);
+    rep.obs("hub:cases", 1);
+    let ci = CaseInfo { case, kind: "hub_state_file", ops: &ops, at: ops.len() };
+    // histories of hundreds of small records would drown the witness: keep the layout + tail
+    let brief = |extra: Value| {
+        json!({"case": case, "seed": ctx.seed, "kind": "hub_state_file", "path": "hub_state_file", "layout": layout, "detail": extra,
+            "state_sizes": state_sizes(&s), "last_ops": ops_json(&ops[ops.len().saturating_sub(6)..]), "ops_total": ops.len()})
+    };
+
+    let mut lab = match HubLab::start_with(&ctx.root, n_workers, 10, |_| {}, |_| {}) {
+        Ok(l) => l,
+        Err(e) => {
+            rep.inconclusive(&format!("hub lab did not start: {}", e.chars().take(80).collect::<String>()));
+            rep.case(case, false);
+            return;
+        }
+    };
+    // scripted workers: acknowledge everything
+    let stop = Arc::new(AtomicBool::new(false));
+    let acked = Arc::new(AtomicU64::new(0));
+    let mut handles = Vec::new();
+    for mut w in lab.take_workers() {
+        let stop = stop.clone();
+        let acked = acked.clone();
+        handles.push(std::thread::spawn(move || {
+            loop {
+                match w.recv_until(Instant::now() + Duration::from_millis(100)) {
+                    Recv::Msg(m) => {
+                        if w.send(&WorkerResponse::ok(m.id)).is_err() {
+                            break;
+                        }
+                        acked.fetch_add(1, Ordering::Relaxed);
+                    }
+                    Recv::Timeout => {
+                        if stop.load(Ordering::SeqCst) {
+                            break;
+                        }
+                    }
+                    Recv::Closed | Recv::Error(_) => break,
+                }
+            }
+            w.close();
+        }));
+    }
+    let file1 = lab.run_dir.join("state-1.json");
+    let file2 = lab.run_dir.join("state-2.json");
+    let mut outcome: Result<(), String> = Ok(());
+    let mut load_answer = None;
+    let mut all1 = Vec::new();
+    // the file is written by the real writer (what SaveState calls)
+    match File::create(&file1).map_err(|e| e.to_string()).and_then(|mut f| s.write_requests_to_file(&mut f).map_err(|e| e.to_string())) {
+        Err(e) => outcome = Err(format!("cannot write the state file: {e}")),
+        Ok(_) => {
+            all1 = std::fs::read(&file1).unwrap_or_default();
+        }
+    }
+    let mut hub_state: Option<ConfigState> = None;
+    if outcome.is_ok() {
+        match lab.client() {
+            Err(e) => outcome = Err(format!("client: {e}")),
+            Ok(mut client) => {
+                let wait = Duration::from_secs(30);
+                match client.request(RequestType::LoadState(file1.to_string_lossy().into_owned()), wait) {
+                    Err(e) => outcome = Err(format!("LoadState: {e}")),
+                    Ok((_, None)) => outcome = Err("LoadState: no final answer within 30 s".to_owned()),
+                    Ok((_, Some(fin))) => {
+                        load_answer = Some((fin.status, fin.message.clone()));
+                        // what the hub holds now, through the real SaveState
+                        match client.request(RequestType::SaveState(file2.to_string_lossy().into_owned()), wait) {
+                            Err(e) => outcome = Err(format!("SaveState: {e}")),
+                            Ok((_, None)) => outcome = Err("SaveState: no final answer within 30 s".to_owned()),
+                            Ok((_, Some(fin2))) if fin2.status != ResponseStatus::Ok as i32 => outcome = Err(format!("SaveState answered {}: {}", fin2.status, fin2.message)),
+                            Ok((_, Some(_))) => {
+                                let all2 = std::fs::read(&file2).unwrap_or_default();
+                                match parse_several_requests::<WorkerRequest>(&all2) {
+                                    Ok((rest, reqs)) if rest.is_empty() => {
+                                        let r = replay(reqs.iter().map(|w| &w.content));
+                                        if r.rejected.is_empty() {
+                                            hub_state = Some(r.state);
+                                        } else {
+                                            outcome = Err("the file saved by the hub does not replay cleanly".to_owned());
+                                        }
+                                    }
+                                    _ => outcome = Err("the file saved by the hub does not parse".to_owned()),
+                                }
+                            }
+                        }
+                    }
+                }
+            }
+        }
+    }
+    stop.store(true, Ordering::SeqCst);
+    for h in handles {
+        let _ = h.join();
+    }
+    let report = lab.shutdown();
+    for p in &report.panics {
+        if p.location.contains("/bin/src/") || p.location.contains("/command/src/") || p.location.contains("/lib/src/") {
+            rep.violation(
+                &format!("roundtrip/hub_state_file/hub_panicked@{}", p.signature().trim_start_matches("panic@")),
+                &format!("the main process panicked while loading / saving a state file: {} at {}", p.message, p.location),
+                brief(json!({"panic": p.message, "location": p.location})),
+            );
+        } else {
+            rep.broken(&format!("panic in the hub thread outside sozu: {} at {}", p.message, p.location));
+        }
+    }
+    let (n_records, largest) = record_layout(&all1);
+    let longest = largest.first().and_then(|v| v["length"].as_u64()).unwrap_or(0);
+    rep.obs_max("hub:state_file_bytes", all1.len() as u64);
+    rep.obs_max("hub:records_in_file", n_records as u64);
+    rep.obs("hub:worker_acknowledgements", acked.load(Ordering::Relaxed));
+    if longest > 100_000 {
+        rep.obs("hub:files_with_record_over_100k", 1);
+        if largest.first().and_then(|v| v["offset"].as_u64()).unwrap_or(0) > 0 {
+            rep.obs("hub:files_with_record_over_100k_not_first", 1);
+        }
+    }
+    if longest > 200_000 {
+        rep.obs("hub:files_with_record_over_200k", 1);
+    }
+    if all1.len() > 200_000 {
+        rep.obs("hub:files_larger_than_read_buffer", 1);
+    }
+    if let Err(e) = &outcome {
+        rep.inconclusive(&format!("hub case: {}", e.chars().take(60).collect::<String>()));
+        rep.case(case, false);
+        return;
+    }
+    let file_info = json!({"file_bytes": all1.len(), "records": n_records, "largest_records": largest});
+    let load_ok = load_answer.as_ref().is_some_and(|a| a.0 == ResponseStatus::Ok as i32);
+    rep.obs(if load_ok { "hub:load_state_answered_ok" } else { "hub:load_state_answered_failure" }, 1);
+    // what the main process holds after the load, against the saved configuration
+    let mut deltas: Vec<Delta> = Vec::new();
+    if let Some(h) = &hub_state {
+        rep.obs("hub:states_compared", 1);
+        let all = compare(&s, h, Mode::Strict);
+        for d in all {
+            if d.is_bucket_only() {
+                rep.obs(&format!("exempt:empty_bucket_not_replayed:{}", d.map), 1);
+            } else {
+                deltas.push(d);
+            }
+        }
+        // the order pseudo-entry of a bucket only matters when its members are all there
+        let incomplete: Vec<String> = deltas.iter().filter(|d| !d.is_order_only()).map(|d| d.map.clone()).collect();
+        deltas.retain(|d| !d.is_order_only() || !incomplete.iter().any(|m| d.map.starts_with(m.as_str())));
+    }
+    let mut per_map: BTreeMap<String, u64> = BTreeMap::new();
+    for d in &deltas {
+        *per_map.entry(format!("{}/{}", d.map, d.kind)).or_insert(0) += 1;
+    }
+    if !load_ok {
+        // one finding: the load stopped; what is missing afterwards goes into the witness
+        let message = load_answer.as_ref().map(|a| a.1.clone()).unwrap_or_default();
+        rep.obs("path:hub_state_file:failed", 1);
+        rep.violation(
+            "roundtrip/hub_state_file/load_state_failed",
+            &format!("LoadState of a file written by write_requests_to_file was answered with a failure ({message}); {} object(s) of the saved configuration are missing or different in the main process afterwards", deltas.len()),
+            brief(json!({"answer": message, "file": file_info, "differences_per_map": per_map,
+                "first_difference": deltas.first().map(|d| json!({"map": d.map, "key": d.key, "kind": d.kind}))})),
+        );
+    } else if hub_state.is_some() {
+        let mut seen: Vec<String> = Vec::new();
+        for d in &deltas {
+            let class = d.class();
+            if seen.contains(&class) {
+                continue;
+            }
+            seen.push(class.clone());
+            rep.violation(
+                &format!("roundtrip/hub_state_file/state_differs/{class}"),
+                &format!("LoadState answered OK but the configuration held by the main process differs from the saved one on map {} (key {}, {})", d.map, d.key, d.kind),
+                brief(json!({"expected_is_left": true, "difference": d.to_json(), "differences_per_map": per_map, "load_state_answer": load_answer.as_ref().map(|a| a.1.clone()), "file": file_info})),
+            );
+        }
+        rep.obs(if seen.is_empty() { "path:hub_state_file:ok" } else { "path:hub_state_file:failed" }, 1);
+    }
+    let _ = ci;
+    rep.case(case, object_count(&s) >= 3);
+    if case - HUB_BASE < 2 {
+        rep.sample(json!({"case": case, "kind": "hub_state_file", "layout": layout, "file": file_info, "load_state_answer": load_answer}));
+    }
+}
+
 pub fn run(ctx: &Ctx) -> Report {
     let mut rep = Report::new(
         "exploration",
         "reachable ConfigStates built by (70 %) random histories of 1..60 commands over every mutating verb with valid/invalid arguments, duplicates, removals and listener patches on a collision-rich alphabet, (29 %) a field-coverage builder (every object type on IPv4 and IPv6 addresses, each optional field independently absent / present-with-default / non-default, 2-4 certificates per address) and (1 %) states holding one value around the 200 000-byte load buffer; each final state (and one intermediate state of half of the histories) goes through the four encode/replay paths and is rebuilt twice from its objects in shuffled order; a case is non-trivial when its final state holds >= 3 objects; distinct = distinct (verb, accepted) sequences",
     );
-    rep.assume("the load_state read loop is mirrored from bin/src/command/requests.rs (same Buffer type, capacity, parser and consume logic) because the function itself needs a live CommandHub; the hub-level run belongs to the hub lab");
+    rep.assume("path (b) has two parts: every state goes through write_requests_to_file -> whole-file parse_several_requests -> dispatch (codec level); a few hundred states per run (biased to files with one or two records of 60..400 kB at the first / early / middle / last position among 0..500 small records) are loaded by the REAL load_state of an in-process CommandHub (c09 hub lab, 1-2 scripted workers acknowledging everything) from a file written by write_requests_to_file, then read back through the real SaveState; the hub's configuration is the replay of that second file");
     rep.assume("an empty Vec/HashMap bucket left by a removal (or by a rejected AddCertificate) holds no listener, frontend, backend or certificate: its disappearance on replay is counted (exempt:empty_bucket_not_replayed:*) and not judged, unless --opt strict_buckets=1; path (d) carries the state verbatim and is compared strictly");
     rep.assume("paths (b) and (c) are judged on their own only when the decoded command list differs from the encoded one; otherwise their replay is the replay of (a) and a difference is reported once, under 'bootstrap'");
     for k in [
@@ -849,6 +1099,12 @@ pub fn run(ctx: &Ctx) -> Report {
         "path:state_file:ok",
         "path:proto_blob:ok",
         "path:upgrade_json:ok",
+        "path:hub_state_file:ok",
+        "hub:load_state_answered_ok",
+        "hub:states_compared",
+        "hub:files_with_record_over_100k_not_first",
+        "hub:files_with_record_over_200k",
+        "hub:files_larger_than_read_buffer",
         "rebuild_equal",
         "rejected_ops",
         "listener_patch_accepted",
@@ -887,6 +1143,9 @@ pub fn run(ctx: &Ctx) -> Report {
             }
         }
     }
+    // hub cases first (few, slower): the state file through the real load_state / save_state
+    let n_hub = ctx.opt_u64("hub_cases", ctx.tier.pick(300, 6_000));
+    crate::common::par_cases_named(ctx, &mut rep, n_hub, "hubcase", |i, r| run_case(ctx, HUB_BASE + i, r));
     let n = ctx.opt_u64("cases", ctx.tier.pick(10_000, 400_000));
     par_cases(ctx, &mut rep, n, |i, r| run_case(ctx, i, r));
     drop(gag);
